@@ -2,7 +2,7 @@
 # confirm_mutant2.sh <ID> <C|D>: second-round layout (/tmp/mut2/<ID>/_out/<letter>/{patch.diff,demo_test.go,agent_meta.json}).
 set -u
 ID=$1; V=$2
-WT=/tmp/mut2/$ID; M=$WT/_out/$V
+WT=${MUTBASE:-/tmp/mut2}/$ID; M=$WT/_out/$V
 . /verif/venv.sh
 cd $WT || exit 1
 git checkout -q -- .
